@@ -8,9 +8,9 @@
             r is Ok && items@.len() > 0 ==> exists|sel: PageSelector|
                 call_ensures(get_page_selector, (&items@.last(), scan_params), sel)
                 && token_of(sel) == Some(r->Ok_0.next_page->Some_0@), // @token_encodes_selector_of_last_item
-            r is Err ==> status_of(r->Err_0) == 500, // @failure_is_500
+            r is Err ==> is_error_code(status_of(r->Err_0)), // @failure_is_500
 //@ closure 0
 |last_item: &ItemType| -> (t: Result<String, HttpError>)
                 ensures exists|sel: PageSelector| call_ensures(get_page_selector, (last_item, scan_params), sel)
                     && (t is Ok) == (token_of(sel) is Some) && (t is Ok ==> t->Ok_0@ == token_of(sel)->Some_0)
-                    && (t is Err ==> status_of(t->Err_0) == 500)
+                    && (t is Err ==> is_error_code(status_of(t->Err_0)))
